@@ -5,7 +5,7 @@ import json
 
 from common import *
 
-IMPORTS = "Loop.World Loop.Checks Loop.LocalChecks"
+IMPORTS = "Loop.World Loop.Checks"
 ROUNDS, FUEL = 14, 60
 
 
@@ -450,12 +450,15 @@ def gen_local(rng, k, focus):
     return gen_supburst(rng)
 
 
-def run_loop_check(chk, oracle_fn, focus, what, accept=lambda o: o == "true", oracle_local_fn=None):
+def run_loop_check(chk, oracle_fn, focus, what, accept=lambda o: o == "true", oracle_local_fn=None, extra_imports=""):
     """oracle_fn(n, links, impl_trace_coq) -> Coq expression; accept(parsed value) -> bool.
     oracle_local_fn: the oracle for the thread-local modes (default: the same).
     quick: default feature build; thorough: also the `async-trait` build of ractor (same scenarios).
     Every build runs the Send scenarios and, on one shared ThreadLocalActorSpawner per scenario,
     the local-adapter and local-native scenarios (eng_world.rs `mode:`)."""
+    global IMPORTS
+    if extra_imports and extra_imports not in IMPORTS:
+        IMPORTS = IMPORTS + " " + extra_imports   # must be in the dependency closure of Properties/<prop>.v
     quick = chk.tier == "quick"
     ok_proofs = chk.proofs()
     factor = 1 if ok_proofs else 4
